@@ -220,11 +220,11 @@ fn adversarial() -> Vec<(&'static str, Vec<u8>)> {
     let mut e = Enc::header();
     e.u32(0).u32(0).u32(0).u32(0).u32(1);
     e.str(b"TR").str(b"T").u8(0).u8(0).u8(0).u8(1);
-    for _ in 0..5000 {
+    for _ in 0..20000 {
         e.u8(0x03).u8(0);
     }
     e.u8(0x07).u8(0).str(b"x");
-    v.push(("adv-expr-depth-5000", e.0.clone()));
+    v.push(("adv-expr-depth-20000", e.0.clone()));
     v
 }
 
